@@ -174,4 +174,4 @@ Definition tableau_ok_b (t : tableau) : bool :=
   && forallb (fun r => Nat.eqb (length (fst r)) n) l
   && forallb (fun i => forallb (fun j => acq (fst (prow l i)) (fst (prow l j)) =? tab_expected_acq n i j)
                                (seq 0 (2 * n))) (seq 0 (2 * n))
-  && forallb (fun i => herm (prow l i) && (0 <=? snd (prow l i)) && (snd (prow l i) <? 4)) (seq 0 n).
+  && forallb (fun i => herm (prow l i) && (0 <=? snd (prow l i)) && (snd (prow l i) <? 4)) (seq 0 (2 * n)).
